@@ -23,8 +23,10 @@ level at which the Rust code works:
 * `fileLoop` = the token loop of `preprocess_included_file` (`StartOfLine / CommandStart /
   CommandContents / NormalContents`, `flush_normal`).  A file is the token stream its text lexes to
   (`SItem.lexError` = the point where `TokenStream::next` fails); the lexer itself is C10's.
-* `includeFile` = `FileLoader::load` + `preprocess_included_file`; **one** `ConditionChain` is shared by
-  all files, `include_depth` is checked against `MAX_INCLUDE_DEPTH`.
+* `includeFile` = `FileLoader::load` + `preprocess_included_file`; one `ConditionChain` object serves all
+  files, but every file works above its own base (`FState.base` = `ConditionChain.1`): `switch`/`pop` do not
+  reach the blocks of the including files and a file must end with the blocks it started with (fix 115a619);
+  `include_depth` is checked against `MAX_INCLUDE_DEPTH`.
 * `preprocessAll` = `preprocess_initial_file` (API defines, entry file, final chain test).
 
 Token representation (`Macro.Tok`): identifiers `.id`; `LiteralInt`/`LiteralIntUnsigned32` `.int spelling`;
@@ -264,17 +266,39 @@ def condD (defs : List Macro) (command : List PTok) : Except Err Bool :=
 /-! ## `preprocess_command` -/
 
 structure FState where
-  /-- `ConditionChain`, innermost level first; shared by all files -/
-  chain : List CS
+  /-- `ConditionChain.0`, innermost block first; one object for all files -/
+  chain : List Block
+  /-- `ConditionChain.1`: the number of blocks that were open when the current file started; they belong to
+      the including files and cannot be switched or closed from inside the file -/
+  base : Nat
   macros : List Macro
   out : List PTok
-  /-- `FileLoader.pragma_once_files`, by include name -/
+  /-- `FileLoader.pragma_once_files`: a set of `FileId`s; since fix d66a6d7 a file keeps one id per *real name*
+      (`real_name_remap`).  The handler of this model (and of the harness) reports the include name as the real
+      name, so the set is kept by include name -/
   once : List String
   /-- `FileLoader.include_depth` -/
   depth : Nat
   deriving DecidableEq, Repr, Inhabited
 
-def active (ch : List CS) : Bool := ch.all (· == activeState)
+def active (ch : List Block) : Bool := ch.all (·.state == activeState)
+
+/-- `ConditionChain::switch(active, is_else, ..)`: `&mut self.0[self.1..]` (a slice panic if the base lay above
+    the stack — it never does, see `Lemmas.CondFile.Above`), then `last_mut()` of the blocks of the current file -/
+def chainSwitch (ch : List Block) (base : Nat) (act isElse : Bool) : Except Err (List Block) :=
+  if ch.length < base then .error (.macro (.panic "range start index out of range: self.0[self.1..]"))
+  else if ch.length = base then .error (.chain switchEmptyErr)
+  else
+    match ch with
+    | [] => .error (.chain switchEmptyErr)
+    | top :: r =>
+      match top.switch act isElse with
+      | .error e => .error (.chain e)
+      | .ok top' => .ok (top' :: r)
+
+/-- `ConditionChain::pop`: `if self.0.len() > self.1 { self.0.pop(); Ok(()) } else { Err(..) }` -/
+def chainPop (ch : List Block) (base : Nat) : Except Err (List Block) :=
+  if ch.length > base then .ok ch.tail else .error (.chain popEmptyErr)
 
 /-- operand of `#include`: a `LiteralString` or a `HeaderName` token -/
 def includeName (s : String) : Option String :=
@@ -310,30 +334,30 @@ def exec (inc : String → FState → Except Err FState) (cur : String) (st : FS
     match trim command with
     | [⟨.id x, _⟩] =>
       let ex := st.macros.any (fun m => m.name == x)
-      .ok { st with chain := pushState (if name = "ifndef" then !ex else ex) :: st.chain }
+      .ok { st with chain := newBlock (pushState (if name = "ifndef" then !ex else ex)) :: st.chain }
     | _ => .error (if name = "ifndef" then .invalidIfndef else .invalidIfdef)
   else if name = "if" then
     match condD st.macros command with
     | .error e => .error e
-    | .ok b => .ok { st with chain := pushState b :: st.chain }
+    | .ok b => .ok { st with chain := newBlock (pushState b) :: st.chain }
   else if name = "elif" then
     match condD st.macros command with
     | .error e => .error e
     | .ok b =>
-      match st.chain with
-      | [] => .error (.chain switchEmptyErr)
-      | top :: r => .ok { st with chain := top.switch b :: r }
+      match chainSwitch st.chain st.base b elifIsElse with
+      | .error e => .error e
+      | .ok ch => .ok { st with chain := ch }
   else if name = "else" then
     if (trimStart command).isEmpty then
-      match st.chain with
-      | [] => .error (.chain switchEmptyErr)
-      | top :: r => .ok { st with chain := top.switch elseSwitchArg :: r }
+      match chainSwitch st.chain st.base elseSwitchArg elseIsElse with
+      | .error e => .error e
+      | .ok ch => .ok { st with chain := ch }
     else .error .invalidElse
   else if name = "endif" then
     if (trimStart command).isEmpty then
-      match st.chain with
-      | [] => .error (.chain popEmptyErr)
-      | _ :: r => .ok { st with chain := r }
+      match chainPop st.chain st.base with
+      | .error e => .error e
+      | .ok ch => .ok { st with chain := ch }
     else .error .invalidEndIf
   else if name = "define" then
     match Include.doDefine st.macros command with
@@ -352,19 +376,23 @@ def exec (inc : String → FState → Except Err FState) (cur : String) (st : FS
     | _ => .error .unknownPragma
   else .error .unknownCommand
 
-/-- `preprocess_command`: name split, `skip = !is_active()`, then the gating of the source
-    (`Gen.gate`: per command `if skip { return }` / `if skip { push; return }` / not gated; unknown names
-    are ignored while skipping) -/
+/-- what `skip` does to a command whose gating is `g`; `run` = what the command does otherwise (a thunk: Lean
+    is strict, and a skipped `#include` must not be executed) -/
+def gated (st : FState) (g : Gate) (run : Unit → Except Err FState) : Except Err FState :=
+  if active st.chain then run ()
+  else match g with
+    | .skipNoEffect => .ok st
+    | .skipPushes c => .ok { st with chain := newBlock c :: st.chain }
+    | .notGated => run ()
+
+/-- `preprocess_command`: `skip = !is_active()`, the name split (a directive that does not start with a name is
+    ignored while skipping: `Gen.nonNameGate`), then the gating of the source (`Gen.gate`: per command
+    `if skip { return }` / `if skip { push; return }` / not gated; unknown names are ignored while skipping) -/
 def command (inc : String → FState → Except Err FState) (cur : String) (st : FState) (cmd : List PTok) :
     Except Err FState :=
   match commandName cmd with
-  | none => .error .unknownCommand
-  | some (name, rest) =>
-    if active st.chain then exec inc cur st name rest
-    else match gate name with
-      | .skipNoEffect => .ok st
-      | .skipPushes c => .ok { st with chain := c :: st.chain }
-      | .notGated => exec inc cur st name rest
+  | none => gated st nonNameGate (fun _ => .error .unknownCommand)
+  | some (name, rest) => gated st (gate name) (fun _ => exec inc cur st name rest)
 
 /-! ## `preprocess_included_file` -/
 
@@ -414,12 +442,19 @@ def fileLoop (inc : String → FState → Except Err FState) (cur : String) :
       fileLoop inc cur st (if t.tok.isWhitespace then .startOfLine else .normalContents) (act ++ [t]) rest
     else fileLoop inc cur st ps (act ++ [t]) rest
 
-/-- `preprocess_included_file` on the token stream of one file -/
+/-- `preprocess_included_file` on the token stream of one file: the blocks open at the start are put out of the
+    file's reach (`condition_chain.1 = condition_chain.0.len()`), and after the last flush the file must have
+    closed every block it opened; then the includer's base is restored -/
 def runStream (inc : String → FState → Except Err FState) (cur : String) (st : FState) (items : List SItem) :
     Except Err FState :=
-  match fileLoop inc cur st .startOfLine [] items with
+  match fileLoop inc cur { st with base := st.chain.length } .startOfLine [] items with
   | .error e => .error e
-  | .ok (st', act) => flush st' act
+  | .ok (st', act) =>
+    match flush st' act with
+    | .error e => .error e
+    | .ok st'' =>
+      if st''.chain.length ≠ st''.base then .error (.chain fileUnfinishedErr)
+      else .ok { st'' with base := st.base }
 
 /-- the include handler: include name ↦ token stream of the file -/
 abbrev Handler := String → Option (List SItem)
@@ -442,6 +477,8 @@ def initialMacros : List Macro → List ApiDef → Except Err (List Macro)
   | ms, [] => .ok ms
   | _, none :: _ => .error (.macro .invalidDefine)
   | ms, some toks :: ds =>
+    -- "A define is a single line so the value can not contain a line break"
+    if toks.any (fun t => t.tok == .endline) then .error (.macro .invalidDefine) else
     match Include.doDefine ms toks with
     | .error e => .error (.macro e)
     | .ok ms' => initialMacros ms' ds
@@ -457,7 +494,7 @@ def preprocessAll (h : Handler) (api : List ApiDef) (entry : String) : Except Er
     match initialMacros [] api with
     | .error e => .error e
     | .ok ms =>
-      match runStream (includeFile h includeFuel) entry ⟨[], ms, [], [], 0⟩ items with
+      match runStream (includeFile h includeFuel) entry ⟨[], 0, ms, [], [], 0⟩ items with
       | .error e => .error e
       | .ok st => if st.chain.isEmpty then .ok st.out else .error (.chain unfinishedErr)
 
